@@ -33,7 +33,7 @@ A(v) == [t |-> "arr", v |-> v]
 O(m) == [t |-> "obj", m |-> m]
 
 \* characters of the concrete text of each multi-character symbol (cross-checked by the harness against its table)
-SymInfo == [du_neg250ms |-> [len |-> 6, hasb |-> FALSE], du_neg1ns |-> [len |-> 4, hasb |-> FALSE], du_neg90m |-> [len |-> 4, hasb |-> FALSE], du_neg1h30m0s |-> [len |-> 8, hasb |-> FALSE], du_zero |-> [len |-> 2, hasb |-> FALSE], du_us |-> [len |-> 5, hasb |-> FALSE], d_1 |-> [len |-> 10, hasb |-> FALSE], d_feb30 |-> [len |-> 10, hasb |-> FALSE], d_short |-> [len |-> 8, hasb |-> FALSE], dt_feb30 |-> [len |-> 20, hasb |-> FALSE], dt_frac |-> [len |-> 22, hasb |-> FALSE], dt_month13 |-> [len |-> 20, hasb |-> FALSE], dt_nozone |-> [len |-> 19, hasb |-> FALSE], dt_off |-> [len |-> 25, hasb |-> FALSE], dt_plus |-> [len |-> 25, hasb |-> FALSE], dt_z |-> [len |-> 20, hasb |-> FALSE], du_1 |-> [len |-> 6, hasb |-> FALSE], du_1h30m0s |-> [len |-> 7, hasb |-> FALSE], du_90m |-> [len |-> 3, hasb |-> FALSE], du_bad |-> [len |-> 2, hasb |-> FALSE], du_frac |-> [len |-> 4, hasb |-> FALSE], ip_1 |-> [len |-> 11, hasb |-> FALSE], ip_256 |-> [len |-> 9, hasb |-> FALSE], si_12 |-> [len |-> 2, hasb |-> FALSE], si_7 |-> [len |-> 1, hasb |-> FALSE], si_big |-> [len |-> 19, hasb |-> FALSE], si_frac |-> [len |-> 3, hasb |-> FALSE], si_neg |-> [len |-> 2, hasb |-> FALSE], t_1 |-> [len |-> 8, hasb |-> FALSE], t_25h |-> [len |-> 8, hasb |-> FALSE], t_frac |-> [len |-> 10, hasb |-> FALSE], u_1 |-> [len |-> 36, hasb |-> TRUE], u_short |-> [len |-> 8, hasb |-> FALSE], u_upper |-> [len |-> 36, hasb |-> FALSE]]
+SymInfo == [su_max |-> [len |-> 20, hasb |-> FALSE], su_over |-> [len |-> 20, hasb |-> FALSE], du_neg250ms |-> [len |-> 6, hasb |-> FALSE], du_neg1ns |-> [len |-> 4, hasb |-> FALSE], du_neg90m |-> [len |-> 4, hasb |-> FALSE], du_neg1h30m0s |-> [len |-> 8, hasb |-> FALSE], du_zero |-> [len |-> 2, hasb |-> FALSE], du_us |-> [len |-> 5, hasb |-> FALSE], d_1 |-> [len |-> 10, hasb |-> FALSE], d_feb30 |-> [len |-> 10, hasb |-> FALSE], d_short |-> [len |-> 8, hasb |-> FALSE], dt_feb30 |-> [len |-> 20, hasb |-> FALSE], dt_frac |-> [len |-> 22, hasb |-> FALSE], dt_month13 |-> [len |-> 20, hasb |-> FALSE], dt_nozone |-> [len |-> 19, hasb |-> FALSE], dt_off |-> [len |-> 25, hasb |-> FALSE], dt_plus |-> [len |-> 25, hasb |-> FALSE], dt_z |-> [len |-> 20, hasb |-> FALSE], du_1 |-> [len |-> 6, hasb |-> FALSE], du_1h30m0s |-> [len |-> 7, hasb |-> FALSE], du_90m |-> [len |-> 3, hasb |-> FALSE], du_bad |-> [len |-> 2, hasb |-> FALSE], du_frac |-> [len |-> 4, hasb |-> FALSE], ip_1 |-> [len |-> 11, hasb |-> FALSE], ip_256 |-> [len |-> 9, hasb |-> FALSE], si_12 |-> [len |-> 2, hasb |-> FALSE], si_7 |-> [len |-> 1, hasb |-> FALSE], si_big |-> [len |-> 19, hasb |-> FALSE], si_frac |-> [len |-> 3, hasb |-> FALSE], si_neg |-> [len |-> 2, hasb |-> FALSE], t_1 |-> [len |-> 8, hasb |-> FALSE], t_25h |-> [len |-> 8, hasb |-> FALSE], t_frac |-> [len |-> 10, hasb |-> FALSE], u_1 |-> [len |-> 36, hasb |-> TRUE], u_short |-> [len |-> 8, hasb |-> FALSE], u_upper |-> [len |-> 36, hasb |-> FALSE]]
 FmtSyms == DOMAIN SymInfo
 
 \* the three patterns of the fragment, by name (their meaning is C08's business)
@@ -60,8 +60,9 @@ FmtTable == {
   FRow("du_1", "duration", TRUE, "du_1"), FRow("du_90m", "duration", TRUE, "du_1h30m0s"), FRow("du_frac", "duration", TRUE, "du_frac"), FRow("du_bad", "duration", FALSE, ""), FRow("du_neg250ms", "duration", TRUE, "du_neg250ms"), FRow("du_neg1ns", "duration", TRUE, "du_neg1ns"), FRow("du_neg90m", "duration", TRUE, "du_neg1h30m0s"),
   FRow("du_neg1h30m0s", "duration", TRUE, "du_neg1h30m0s"), FRow("du_zero", "duration", TRUE, "du_zero"), FRow("du_us", "duration", TRUE, "du_us"),
 
+  FRow("si_12", "uint64", TRUE, "si_12"), FRow("si_big", "uint64", TRUE, "si_big"), FRow("si_7", "uint64", TRUE, "si_7"), FRow("si_frac", "uint64", FALSE, ""), FRow("su_max", "uint64", TRUE, "su_max"), FRow("si_neg", "uint64", FALSE, ""), FRow("su_over", "uint64", FALSE, ""),
   FRow("si_12", "int64", TRUE, "si_12"), FRow("si_neg", "int64", TRUE, "si_neg"), FRow("si_7", "int64", TRUE, "si_7"), FRow("du_1h30m0s", "duration", TRUE, "du_1h30m0s"), FRow("si_frac", "int64", FALSE, ""), FRow("si_big", "int64", FALSE, "")}
-StrFormats == {"date-time", "date", "time", "uuid", "ipv4", "duration", "int64"}
+StrFormats == {"date-time", "date", "time", "uuid", "ipv4", "duration", "int64", "uint64"}
 IntFormats == {"unix-seconds", "unix-milli", "int32", "int64"}
 FmtOK(name, sym) == \E r \in FmtTable : r.sym = sym /\ r.fmt = name /\ r.ok
 FmtEcho(name, sym) == (CHOOSE r \in FmtTable : r.sym = sym /\ r.fmt = name /\ r.ok).echo
@@ -100,8 +101,13 @@ AnyNum == Num(NONE, NONE, FALSE, FALSE, NONE)
 \* shared components (referenced by name from the schema domain)
 Defs == [ArrN |-> Nullable(Arr(AnyStr, 0, NONE, FALSE)), ArrS |-> Arr(AnyStr, 0, NONE, FALSE), ArrM |-> Arr(AnyInt, 1, 2, FALSE),
          DA |-> Obj(<<P("a", AnyInt, TRUE), P("b", AnyInt, TRUE)>>, AT, 0, NONE), DB |-> Obj(<<P("b", AnyInt, TRUE)>>, AF, 0, NONE), DC |-> Obj(<<P("a", AnyInt, TRUE)>>, AF, 0, NONE),
+         \* variants of a sum with a discriminator (member c): the first carries its data in additional members only
+         DVa |-> Obj(<<P("c", Enum(<<S(<<"a">>)>>, AnyStr), TRUE)>>, AnyInt, 0, NONE),
+         DVb |-> Obj(<<P("c", Enum(<<S(<<"b">>)>>, AnyStr), TRUE), P("a", AnyStr, FALSE)>>, AF, 0, NONE),
          StrN |-> Nullable(Str(1, NONE, "")), En |-> Enum(<<S(<<"a">>), S(<<"b">>)>>, AnyStr), Dt |-> Fmt("string", "date-time")]
 Ref(name) == [k |-> "ref", name |-> name]
+\* oneOf with `discriminator: {propertyName, mapping}`: the keyword does not change validity
+OneOfD(ss, prop, tags) == [k |-> "oneOf", ss |-> ss, disc |-> [prop |-> prop, tags |-> tags]]
 
 NumOK(S0, n) ==
   /\ (S0.lo # NONE => IF S0.xlo THEN n > S0.lo ELSE n >= S0.lo)
@@ -281,7 +287,8 @@ RefSchemas == {Obj(<<P("a", Ref("ArrN"), TRUE), P("b", Ref("ArrS"), FALSE)>>, AF
                Obj(<<>>, Ref("ArrN"), 0, NONE), Obj(<<P("a", Ref("ArrM"), FALSE), P("c", Ref("StrN"), TRUE)>>, AF, 0, NONE),
                Obj(<<P("a", Ref("StrN"), FALSE), P("b", Ref("En"), FALSE), P("c", Ref("Dt"), FALSE)>>, AF, 0, NONE),
                \* two sums sharing a variant: what tells DA apart differs (b in the first, a ... in the second)
-               Ref("ArrN"), Ref("DA")} \cup SharedSums
+               Ref("ArrN"), Ref("DA"), OneOfD(<<Ref("DVa"), Ref("DVb")>>, "c", <<"a", "b">>),
+               Obj(<<P("a", OneOfD(<<Ref("DVa"), Ref("DVb")>>, "c", <<"a", "b">>), TRUE)>>, AF, 0, NONE)} \cup SharedSums
 Schemas == RefSchemas \cup FmtSchemas \cup StrSchemas \cup IntSchemas \cup NumSchemas \cup ArrSchemas \cup ObjSchemas \cup SumSchemas \cup {Bool, Nullable(Bool), AnyS, Wide(9), Wide(17)}
 
 (****************************** instance domain ****************************)
@@ -299,7 +306,10 @@ Objects == {O(<<>>)} \cup {O(<< <<k, x>> >>) : k \in Keys, x \in Leaves}
            \cup {O(<< <<"a", O(<< <<"b", y>> >>)>> >>) : y \in {N(10), S(<<"a">>), Null}} \cup {O(<< <<"a", O(<<>>)>> >>), O(<< <<"a", A(<<N(10), N(10)>>)>> >>), O(<< <<"a", A(<<>>)>> >>)}
            \cup {O(<< <<"a", N(10)>>, <<"c", O(<< <<"a", y>> >>)>> >>) : y \in {N(20), S(<<"a">>)}} \cup {O(<< <<"a", N(10)>>, <<"c", O(<< <<"a", N(20)>>, <<"c", O(<< <<"a", N(30)>> >>)>> >>)>> >>)}
            \cup {O(<< <<"a", S(<<"a">>)>>, <<"b", N(10)>>, <<"c", B(TRUE)>> >>), O(<< <<"a", S(<<"a">>)>>, <<"b", N(10)>>, <<"c", N(10)>> >>)}
+DiscInsts == {O(<< <<"c", S(<<"a">>)>> >>), O(<< <<"c", S(<<"a">>)>>, <<"b", N(10)>> >>), O(<< <<"c", S(<<"a">>)>>, <<"a", N(10)>>, <<"b", N(20)>> >>), O(<< <<"b", N(10)>>, <<"c", S(<<"a">>)>> >>),
+              O(<< <<"c", S(<<"a">>)>>, <<"b", S(<<"a">>)>> >>), O(<< <<"c", S(<<"b">>)>> >>), O(<< <<"c", S(<<"b">>)>>, <<"a", S(<<"a">>)>> >>), O(<< <<"c", S(<<"b">>)>>, <<"b", N(10)>> >>),
+              O(<< <<"c", S(<<"e">>)>> >>), O(<< <<"a", O(<< <<"c", S(<<"a">>)>>, <<"b", N(10)>> >>)>> >>), O(<< <<"a", O(<< <<"c", S(<<"b">>)>>, <<"a", S(<<"a">>)>> >>)>> >>)}
 WideInst(n, drop) == O([i \in 1..(n - (IF drop = 0 THEN 0 ELSE 1)) |-> LET j == IF drop # 0 /\ i >= drop THEN i + 1 ELSE i IN <<Letters[j], N(10)>>])
 WideInsts == {WideInst(9, 0), WideInst(9, 9), WideInst(9, 8), WideInst(9, 1), WideInst(9, 2), WideInst(17, 0), WideInst(17, 17), WideInst(17, 9), WideInst(17, 16)}
-Instances == Leaves \cup Arrays \cup Objects \cup WideInsts
+Instances == Leaves \cup Arrays \cup Objects \cup WideInsts \cup DiscInsts
 =============================================================================
